@@ -117,9 +117,15 @@ func checkFloatCarrier(x float64) string {
 // that values straddle the decoder's internal buffer refills at every alignment.
 func checkDoubleStream(vals []float64, pad int) string {
 	c := &zoo.FloatFields{L64: vals, M64: map[string]float64{mkString(0, pad, 0, 0, 1): 1}}
-	stage, err, _ := roundTrip(c)
+	stage, err, plain := roundTrip(c)
 	if err != nil {
 		return fmt.Sprintf("list of %d doubles after %d pad characters: %s: %v", len(vals), pad, stage, err)
+	}
+	if pad == 0 {
+		_, nm := hessian.ExtractTypeNameMap(c)
+		if nerr := nestedEncode(c, &zoo.FloatFields{F64: 0.1, L64: []float64{1e-300, 2.5, 1e300}}, nm, plain); nerr != nil {
+			return nerr.Error()
+		}
 	}
 	top := make([]interface{}, 0, len(vals)+1)
 	top = append(top, mkString(0, pad, 0, 0, 2))
